@@ -15,6 +15,7 @@ package main
 // canary, and one that names anything else creates a new entry – both show up in the listing.
 
 import (
+	"bytes"
 	"crypto/sha256"
 	"encoding/hex"
 	"fmt"
@@ -144,12 +145,29 @@ func c20NewGuard(scratch string, depth int) (*c20Guard, error) {
 	return g, nil
 }
 
-// topPresent lists which of the watched names exist directly under "/" (absolute escapes).
+// topPresent lists which of the watched names exist directly under "/" (absolute escapes). "/" is
+// shared by all shard processes: a regular file carrying another shard's payload is left to that shard.
 func (g *c20Guard) topPresent() []string {
 	var r []string
 	for _, n := range g.topNames {
-		if _, err := os.Lstat("/" + n); err == nil {
+		for try := 0; ; try++ {
+			fi, err := os.Lstat("/" + n)
+			if err != nil {
+				break
+			}
+			if fi.Mode().IsRegular() {
+				b, err := os.ReadFile("/" + n)
+				if err == nil && bytes.HasPrefix(b, []byte("C20-PAYLOAD shard=")) && !bytes.Equal(b, c20Payload) {
+					break // another shard's
+				}
+				if err == nil && len(b) == 0 && try < 3 {
+					// possibly another shard's file between create and write: look again
+					time.Sleep(2 * time.Millisecond)
+					continue
+				}
+			}
 			r = append(r, n)
+			break
 		}
 	}
 	return r
